@@ -133,7 +133,8 @@ Proof. unfold update_page_table. repeat (break_match; cbn [fst nextFree]; try re
 
 Lemma st_insert_free_mono s n cols vals : nextFree s <= nextFree (fst (st_insert s n cols vals)).
 Proof.
-  unfold st_insert. destruct (is_sys_table n); cbn [fst]; [lia|].
+  unfold st_insert. destruct (ins_bad_cols _ _ _ _); cbn [fst]; [lia|]. unfold st_insert0.
+  destruct (is_sys_table n); cbn [fst]; [lia|].
   destruct (bind _ _) as [[off bs]|e|]; cbn [fst]; try lia.
   pose proof (bt_insert_free_mono s off bs) as H1.
   destruct (bt_insert s off bs) as [s1 [[[k l] nr]|e|]]; cbn [fst] in *; try exact H1.
@@ -154,10 +155,10 @@ Qed.
 Section Insert.
 Variables (n : string) (cols : list string).
 
-Lemma st_insert_rep s d t vals s' ws :
+Lemma st_insert0_rep s d t vals s' ws :
   Rep s d -> is_sys n = false -> find_tbl n d = Some t -> Forall val_okP vals ->
   nextFree s' <= OFFMAX ->
-  st_insert s n cols vals = (s', Ok ws) ->
+  st_insert0 s n cols vals = (s', Ok ws) ->
   let cols' := match cols with [] => map fd_name (tb_schema t) | _ => cols end in
   let r := build_row (tb_schema t) cols' vals (null_row (tb_schema t)) in
   Nat.eqb (List.length cols') (List.length vals) = true /\ check_row (tb_schema t) r = None /\
@@ -168,7 +169,7 @@ Proof.
   destruct (c_tabs _ _ _ _ _ _ HC t Hin) as (o & tr & He & Hr & Ht).
   pose proof (cat_rel_offset_in s d pt sc ents osc Hinv Hok HC _ _ He) as Eo.
   pose proof (cat_rel_schema s d pt sc ents osc Hinv Hok HC _ Hsys) as Es. rewrite Hf in Es.
-  unfold st_insert in Hst. rewrite is_sys_table_is_sys, Hsys in Hst. rewrite Eo, Es in Hst. cbn [bind] in Hst.
+  unfold st_insert0 in Hst. rewrite is_sys_table_is_sys, Hsys in Hst. rewrite Eo, Es in Hst. cbn [bind] in Hst.
   unfold get_tree at 1 in Hst. rewrite Hr in Hst. cbn [bind] in Hst.
   fold cols' in Hst.
   destruct (Nat.eqb (List.length cols') (List.length vals)) eqn:Elen; cbn [negb] in Hst; [|inversion Hst].
@@ -217,6 +218,31 @@ Proof.
     + intros x X1 X2 X3. rewrite Hframe2 by congruence. apply Hframe; assumption.
 Qed.
 
+(* a successful Insert passed the column-list check: only columns of the table, each once *)
+Lemma st_insert_rep s d t vals s' ws :
+  Rep s d -> is_sys n = false -> find_tbl n d = Some t -> Forall val_okP vals ->
+  nextFree s' <= OFFMAX ->
+  st_insert s n cols vals = (s', Ok ws) ->
+  let cols' := match cols with [] => map fd_name (tb_schema t) | _ => cols end in
+  let r := build_row (tb_schema t) cols' vals (null_row (tb_schema t)) in
+  Nat.eqb (List.length cols') (List.length vals) = true /\
+  cols_err (map fd_name (tb_schema t)) cols' [] = None /\ check_row (tb_schema t) r = None /\
+  Rep s' (set_rows n (tb_rows t ++ [r]) d).
+Proof.
+  intros HR Hsys Hf Hvals Hmax Hst cols' r.
+  unfold st_insert in Hst. destruct (ins_bad_cols s n cols vals) as [e|] eqn:Eb; [inversion Hst|].
+  destruct (st_insert0_rep s d t vals s' ws HR Hsys Hf Hvals Hmax Hst) as (Hlen & Hchk & HR').
+  split; [exact Hlen|]. split; [|split; [exact Hchk | exact HR']].
+  destruct HR as [Hinv Hok (pt & sc & ents & osc & HC)].
+  destruct (find_tbl_In _ _ _ Hf) as [Hin Hn]. subst n.
+  destruct (c_tabs _ _ _ _ _ _ HC t Hin) as (o & tr & He & Hr & Ht).
+  pose proof (cat_rel_offset_in s d pt sc ents osc Hinv Hok HC _ _ He) as Eo.
+  pose proof (cat_rel_schema s d pt sc ents osc Hinv Hok HC _ Hsys) as Es. rewrite Hf in Es.
+  unfold ins_bad_cols in Eb. rewrite is_sys_table_is_sys, Hsys, Eo in Eb. cbn [bind] in Eb.
+  unfold get_tree at 1 in Eb. rewrite Hr in Eb. cbn [bind] in Eb. rewrite Es in Eb.
+  fold cols' in Eb. fold cols' in Hlen. rewrite Hlen in Eb. cbn [negb] in Eb. exact Eb.
+Qed.
+
 Lemma insert_rows_rep rows : forall s d t b k s' b' c,
   Rep s d -> is_sys n = false -> find_tbl n d = Some t -> Forall (Forall val_okP) rows ->
   nextFree s' <= OFFMAX ->
@@ -231,13 +257,13 @@ Proof.
     destruct (st_insert s n cols vals) as [s1 [ws|e|]] eqn:Est; try (inversion Hrun; fail).
     assert (Hmax1 : nextFree s1 <= OFFMAX).
     { pose proof (insert_rows_free_mono rest s1 n cols (b ++ ws) (S k)) as X. rewrite Hrun in X. cbn [fst] in X. lia. }
-    destruct (st_insert_rep s d t vals s1 ws HR Hsys Hf Hv Hmax1 Est) as (Hlen & Hchk & HR1).
+    destruct (st_insert_rep s d t vals s1 ws HR Hsys Hf Hv Hmax1 Est) as (Hlen & Hce & Hchk & HR1).
     pose proof (find_tbl_set_rows n (tb_rows t ++ [build_row (tb_schema t)
                  match cols with [] => map fd_name (tb_schema t) | _ :: _ => cols end vals (null_row (tb_schema t))]) d t Hf) as Hf1.
     destruct (IH s1 _ _ (b ++ ws) (S k) s' b' c HR1 Hsys Hf1 Hvr Hmax Hrun) as (new & Hnew & HR').
     cbn [tb_schema tb_rows] in Hnew, HR'. rewrite set_rows_set_rows, <- app_assoc in HR'. cbn [app] in HR'.
     eexists. split; [|exact HR'].
-    cbn [insert_all]. rewrite Hlen. cbn [negb]. rewrite Hchk, Hnew. reflexivity.
+    cbn [insert_all]. rewrite Hlen. cbn [negb]. rewrite Hce, Hchk, Hnew. reflexivity.
 Qed.
 
 End Insert.
@@ -321,18 +347,22 @@ Lemma update_all_pred w sch cols vals : forall idrows,
   evaluable w (fields_of sch) idrows ->
   (forall kr, In kr idrows -> sel_pred w (fields_of sch) kr = true ->
               check_row sch (build_row sch cols vals (snd kr)) = None) ->
+  (forall kr, In kr idrows -> sel_pred w (fields_of sch) kr = true ->
+              cols_err (map fd_name sch) cols [] = None) ->
   update_all w sch cols vals (map snd idrows) =
   Ok (map snd (map (fun kr => if sel_pred w (fields_of sch) kr
                               then (fst kr, build_row sch cols vals (snd kr)) else kr) idrows)).
 Proof.
-  induction idrows as [|[k r] idrows IH]; intros Hev Hchk; [reflexivity|].
+  induction idrows as [|[k r] idrows IH]; intros Hev Hchk Hce; [reflexivity|].
   cbn [map snd update_all].
   rewrite (matches_sel w sch k r).
   2:{ intros e E. specialize (Hev e E). inversion Hev; subst. assumption. }
   cbn [bind]. rewrite IH.
   2:{ intros e E. specialize (Hev e E). inversion Hev; subst. assumption. }
   2:{ intros kr Hin. apply Hchk. right. exact Hin. }
+  2:{ intros kr Hin. apply Hce. right. exact Hin. }
   cbn [bind]. destruct (sel_pred w (fields_of sch) (k, r)) eqn:Ep; [|reflexivity].
+  rewrite (Hce (k, r) (or_introl eq_refl) Ep).
   pose proof (Hchk (k, r) (or_introl eq_refl) Ep) as X. cbn [snd] in X. cbn [fst snd]. rewrite X. reflexivity.
 Qed.
 
@@ -543,10 +573,10 @@ Qed.
 (* ---------- UPDATE of one row ---------- *)
 Variables (cols : list string) (vals : list value).
 
-Lemma st_update_rep s d t k s' ws :
+Lemma st_update0_rep s d t k s' ws :
   Rep s d -> is_sys n = false -> find_tbl n d = Some t -> Forall val_okP vals ->
   In k (map fst (fetch_rows s n)) ->
-  st_update s n k cols vals = (s', Ok ws) ->
+  st_update0 s n k cols vals = (s', Ok ws) ->
   let F := build_row (tb_schema t) cols vals in
   let idrows' := map (fun kr => if N.eqb (fst kr) k then (fst kr, F (snd kr)) else kr) (fetch_rows s n) in
   Rep s' (set_rows n (map snd idrows') d) /\ fetch_rows s' n = idrows' /\ nextFree s' = nextFree s /\
@@ -567,8 +597,8 @@ Proof.
     - exists r0. cbn [fst snd] in *. split; [left; congruence | exact B].
     - destruct (IH Hcs) as (r & X & Y). exists r. split; [right; exact X | exact Y]. }
   destruct Hrc as (r & Hkr & [Hval Hfit]).
-  pose proof (st_update_inv s n k cols vals Hinv) as Hinv'. rewrite Hst in Hinv'. cbn [fst] in Hinv'.
-  unfold st_update in Hst. rewrite is_sys_table_is_sys, Hsys in Hst. rewrite Eo, Es in Hst. cbn [bind] in Hst. unfold get_tree in Hst. rewrite Hr in Hst. cbn [bind] in Hst.
+  pose proof (st_update0_inv s n k cols vals Hinv) as Hinv'. rewrite Hst in Hinv'. cbn [fst] in Hinv'.
+  unfold st_update0 in Hst. rewrite is_sys_table_is_sys, Hsys in Hst. rewrite Eo, Es in Hst. cbn [bind] in Hst. unfold get_tree in Hst. rewrite Hr in Hst. cbn [bind] in Hst.
   rewrite (scan_right_leaves_okP _ _ Hw) in Hst. cbn [of_tres bind] in Hst.
   fold (leaf_pairs (leaves tr)) in Hst.
   assert (Hpc : In (t_off l, c) (leaf_pairs (leaves tr))).
@@ -605,6 +635,27 @@ Proof.
   subst r'. apply Hchk. reflexivity.
 Qed.
 
+(* a successful Update passed the column-list check *)
+Lemma st_update_rep s d t k s' ws :
+  Rep s d -> is_sys n = false -> find_tbl n d = Some t -> Forall val_okP vals ->
+  In k (map fst (fetch_rows s n)) ->
+  st_update s n k cols vals = (s', Ok ws) ->
+  let F := build_row (tb_schema t) cols vals in
+  let idrows' := map (fun kr => if N.eqb (fst kr) k then (fst kr, F (snd kr)) else kr) (fetch_rows s n) in
+  Rep s' (set_rows n (map snd idrows') d) /\ fetch_rows s' n = idrows' /\ nextFree s' = nextFree s /\
+  (forall r, In (k, r) (fetch_rows s n) -> check_row (tb_schema t) (F r) = None) /\
+  cols_err (map fd_name (tb_schema t)) cols [] = None.
+Proof.
+  intros HR Hsys Hf Hvals Hk Hst F idrows'.
+  unfold st_update in Hst. destruct (upd_bad_cols s n cols) as [e|] eqn:Eb; [inversion Hst|].
+  destruct (st_update0_rep s d t k s' ws HR Hsys Hf Hvals Hk Hst) as (A & B & C & D).
+  split; [exact A|]. split; [exact B|]. split; [exact C|]. split; [exact D|].
+  destruct (inplace_setup s d t k HR Hsys Hf Hk)
+    as (pt & sc & ents & osc & o & tr & c & l & HC & Hin & Hn & He & Eo & Hr & Es & _).
+  unfold upd_bad_cols in Eb. rewrite is_sys_table_is_sys, Hsys, Eo in Eb. cbn [bind] in Eb.
+  unfold get_tree at 1 in Eb. rewrite Hr in Eb. cbn [bind] in Eb. rewrite Es in Eb. exact Eb.
+Qed.
+
 Lemma upd_ids_cons k rest F idrows :
   ~ In k rest ->
   upd_ids rest F (map (fun kr => if N.eqb (fst kr) k then (fst kr, F (snd kr)) else kr) idrows) =
@@ -625,10 +676,11 @@ Lemma update_rows_rep ids : forall s d t b s' b' c,
   update_rows s n cols vals ids b = (s', b', OOk c) ->
   let F := build_row (tb_schema t) cols vals in
   Rep s' (set_rows n (map snd (upd_ids ids F (fetch_rows s n))) d) /\ nextFree s' = nextFree s /\
-  (forall k r, In k ids -> In (k, r) (fetch_rows s n) -> check_row (tb_schema t) (F r) = None).
+  (forall k r, In k ids -> In (k, r) (fetch_rows s n) -> check_row (tb_schema t) (F r) = None) /\
+  (ids <> [] -> cols_err (map fd_name (tb_schema t)) cols [] = None).
 Proof.
   induction ids as [|k rest IH]; intros s d t b s' b' c HR Hsys Hf Hvals Hks Hnd Hrun F.
-  - cbn [update_rows] in Hrun. inversion Hrun; subst. split; [|split; [reflexivity | intros ? ? []]].
+  - cbn [update_rows] in Hrun. inversion Hrun; subst. split; [|split; [reflexivity | split; [intros ? ? [] | congruence]]].
     unfold upd_ids. cbn [existsb]. rewrite map_id.
     pose proof HR as [Hinv Hok (pt & sc & ents & osc & HC)].
     destruct (find_tbl_In _ _ _ Hf) as [Hin Hn].
@@ -638,15 +690,15 @@ Proof.
     rewrite (set_rows_self n d t Hf). exact HR.
   - cbn [update_rows] in Hrun. inversion Hnd as [|? ? Hnk Hnd']; subst.
     destruct (st_update s n k cols vals) as [s1 [ws|e|]] eqn:Est; try (inversion Hrun; fail).
-    destruct (st_update_rep s d t k s1 ws HR Hsys Hf Hvals (Hks k (or_introl eq_refl)) Est) as (HR1 & Hfr1 & Hnf1 & Hchk1).
+    destruct (st_update_rep s d t k s1 ws HR Hsys Hf Hvals (Hks k (or_introl eq_refl)) Est) as (HR1 & Hfr1 & Hnf1 & Hchk1 & Hce1).
     match type of HR1 with Rep _ (set_rows _ ?rows _) => pose proof (find_tbl_set_rows n rows d t Hf) as Hf1 end.
-    destruct (IH s1 _ _ (b ++ ws) s' b' c HR1 Hsys Hf1 Hvals) as (HR' & Hnf' & Hchk'); auto.
+    destruct (IH s1 _ _ (b ++ ws) s' b' c HR1 Hsys Hf1 Hvals) as (HR' & Hnf' & Hchk' & _); auto.
     { intros k' Hk'. rewrite Hfr1, map_map.
       replace (map (fun x => fst (if N.eqb (fst x) k then (fst x, build_row (tb_schema t) cols vals (snd x)) else x)) (fetch_rows s n))
         with (map fst (fetch_rows s n)); [apply Hks; right; exact Hk'|].
       apply map_ext. intros kr. destruct (N.eqb (fst kr) k); reflexivity. }
     cbn [tb_schema] in HR', Hchk'. fold F in HR', Hchk'.
-    split; [|split; [congruence|]].
+    split; [|split; [congruence|split; [|intros _; exact Hce1]]].
     + rewrite set_rows_set_rows, Hfr1 in HR'. fold F in HR'. rewrite (upd_ids_cons k rest F _ Hnk) in HR'. exact HR'.
     + intros k' r [<-|Hk'] Hkr; [apply Hchk1; exact Hkr|].
       apply (Hchk' k' r Hk'). rewrite Hfr1. apply in_map_iff. exists (k', r). split; [|exact Hkr].
